@@ -2,10 +2,10 @@
    Statements about the model of Model/Pulse.v at its binary64 instance (eq64, join64), closed by
    [exact <lemma>]; the model is tied to the source by Model/Tie/C17.v and to the behaviour of the
    implementation by the exact correspondence check of tools/ffv/props/c17.py. *)
-From Coq Require Import ZArith List Bool String PeanoNat Permutation Sorted Reals.
+From Coq Require Import ZArith List Bool String PeanoNat Permutation Sorted Reals Lia.
 From FF Require Import Model.B64 Model.Pulse Spec.PulseSpec Model.Tie.C17
   Proofs.PulseBase Proofs.PulseJoin Proofs.PulseCanon Proofs.PulseEq Proofs.PulseMisc Proofs.B64 Proofs.PulseInst
-  Proofs.PulseTime Proofs.PulseCopy Proofs.PulseHam.
+  Proofs.PulseTime Proofs.PulseCopy Proofs.PulseHam Proofs.PulseComplete.
 (* the observables of the correspondence check are rebuilt together with the model *)
 From FF Require Corr.PulseObs.
 Import ListNotations.
@@ -191,11 +191,39 @@ Theorem C17_eq_time_denotation_prefix_refuted :
               eq64_prefix A B = false /\ eq64_prefix B A = false.
 Proof. exact eq_time_denotation_prefix_refuted. Qed.
 Print Assumptions C17_eq_zero_duration_example.
-(* Completeness in general (same function of time => equal) is not proved: it needs the uniqueness of the
-   canonical form among all segmentations; kept as a definition. *)
-Definition C17_eq_complete_full : Prop := forall A B, wf A -> wf B ->
-  c_opers A = c_opers B -> c_ids A = c_ids B -> n_opers A = n_opers B -> n_ids A = n_ids B -> basis A = basis B ->
-  (forall t, at_time (segments A) t = at_time (segments B) t) -> sep64 A B -> eq64 A B = true.
+(* Completeness: pulses with the same operators, identifiers and basis that are the same function of time
+   (on t >= 0; durations non-negative, normalised, not all zero) compare equal.  Proved through the uniqueness of
+   the canonical form (positive durations, no two equal neighbours): [canon_unique].  With exact addition of the
+   durations (eq_exact: the algorithm without rounding) it is an equivalence; for binary64 it holds whenever the
+   merged durations are exact sums (otherwise the tolerances of np.allclose decide: C17_eq_char). *)
+Theorem C17_canonical_form_unique : forall L1 L2,
+  positive L1 -> positive L2 -> no_adjacent_equal L1 -> no_adjacent_equal L2 ->
+  (forall t, (0 <= t)%R -> at_time L1 t = at_time L2 t) -> Forall2 seg_equiv L1 L2.
+Proof. exact canon_unique. Qed.
+Theorem C17_same_time_function_same_canon : forall A B, good_durations A -> good_durations B ->
+  (forall t, (0 <= t)%R -> at_time (segments A) t = at_time (segments B) t) -> canon dadd A = canon dadd B.
+Proof. exact same_time_function_same_canon. Qed.
+Theorem C17_eq_exact_complete : forall A B, wf A -> wf B -> same_frame A B -> good_durations A -> good_durations B ->
+  (forall t, (0 <= t)%R -> at_time (segments A) t = at_time (segments B) t) -> eq_exact A B = true.
+Proof. exact eq_exact_complete. Qed.
+Theorem C17_eq_exact_sound : forall A B, wf A -> wf B -> c_ids A = c_ids B -> n_ids A = n_ids B ->
+  good_durations A -> good_durations B -> eq_exact A B = true ->
+  forall t, (0 <= t)%R -> at_time (segments A) t = at_time (segments B) t.
+Proof. exact eq_exact_sound. Qed.
+Theorem C17_eq_complete : forall A B, wf A -> wf B -> same_frame A B -> good_durations A -> good_durations B ->
+  jdt fadd64 A = jdt dadd A -> jdt fadd64 B = jdt dadd B ->
+  (forall t, (0 <= t)%R -> at_time (segments A) t = at_time (segments B) t) -> eq64 A B = true.
+Proof. exact eq64_complete. Qed.
+Print Assumptions C17_eq_complete.
+(* hypotheses satisfiable: the zero-duration pair *)
+Example C17_eq_complete_example :
+  same_frame zd_split zd_merged /\ good_durations zd_split /\ good_durations zd_merged /\
+  jdt fadd64 zd_split = jdt dadd zd_split /\ jdt fadd64 zd_merged = jdt dadd zd_merged.
+Proof.
+  split; [repeat split|]. split; [|split; [|split; vm_compute; reflexivity]].
+  - split; [|vm_compute; reflexivity]. repeat constructor; simpl; try lia; discriminate.
+  - split; [|vm_compute; reflexivity]. repeat constructor; simpl; try lia; discriminate.
+Qed.
 
 (* ---------------------------------------------------------------- copies *)
 (* A deep copy lives in freshly allocated cells only: it is structurally equal to the original, no cell
